@@ -313,13 +313,13 @@ func seqCase(rep *vh.Report, env vh.Env, i int) {
 		sort.Strings(kinds)
 		switch {
 		case len(seen) == 0:
-			rn.after = "nothing"
+			rn.suffix = " after=nothing"
 		case len(kinds) == 0:
-			rn.after = "exact-request"
+			rn.suffix = " after=exact-request"
 		case len(kinds) == 1:
-			rn.after = kinds[0] + "-variant-request"
+			rn.suffix = " after=" + kinds[0] + "-variant-request"
 		default:
-			rn.after = "several-variant-requests"
+			rn.suffix = " after=several-variant-requests"
 		}
 		if st.kind == "exact" {
 			for kd := range seen {
